@@ -51,6 +51,7 @@ type mitm struct {
 	// two nodes
 	recorded []byte
 	replayed bool
+	held     []byte // a frame kept back to leave together with the next one
 }
 
 func newMitm(target string, script map[int]tamper, rng *hx.Rng) *mitm {
@@ -117,11 +118,25 @@ func (m *mitm) serve(c net.Conn) {
 			binary.BigEndian.PutUint32(hh, uint32(len(b)))
 			return append(hh, b...)
 		}
+		m.mu.Lock()
+		held := m.held
+		m.held = nil
+		m.mu.Unlock()
+		if held != nil {
+			// the frame held back earlier and this one leave in ONE write: the receiver finds the
+			// second frame's bytes right behind the first one's in whatever it reads
+			s.Write(append(held, frame(body)...))
+			continue
+		}
 		if !ok {
 			s.Write(frame(body))
 			continue
 		}
 		switch t.kind {
+		case "coalesce":
+			m.mu.Lock()
+			m.held = frame(body)
+			m.mu.Unlock()
 		case "flip":
 			b := append([]byte{}, body...)
 			p := t.pos % (len(b) * 8)
@@ -193,6 +208,11 @@ var c16Types = []func(i int) proto.Message{
 	func(i int) proto.Message {
 		return &dkg.Deal{SessionId: fmt.Sprintf("msg-%d", i), Index: uint32(i)}
 	},
+	// a message whose every field can be at its default: the first one of a run (i = 6) encodes to
+	// NO bytes at all - an authentic message with an empty payload is still a message
+	func(i int) proto.Message {
+		return &p2p.Ping{Count: uint64(i / 7)}
+	},
 }
 
 func msgIndex(m proto.Message) (int, int) {
@@ -215,6 +235,8 @@ func msgIndex(m proto.Message) (int, int) {
 		}
 	case *dkg.Deal:
 		return 5, int(x.Index)
+	case *p2p.Ping:
+		return 6, int(x.Count)*7 + 6
 	}
 	return -1, -1
 }
@@ -299,6 +321,8 @@ func reflectZero(m proto.Message) interface{} {
 		return vss.Responses{}
 	case *dkg.Deal:
 		return dkg.Deal{}
+	case *p2p.Ping:
+		return p2p.Ping{}
 	}
 	return nil
 }
@@ -452,6 +476,12 @@ func genC16(rng *hx.Rng, tier string, w *hx.Writer) error {
 			kind = "cut-replay"
 			at = rng.Intn(nmsg - 1)
 		}
+		if it%12 == 7 || it%12 == 2 {
+			// the proxy keeps one frame back (its sender gives up waiting for the answer and sends the
+			// next message) and forwards the two frames in a single write
+			kind = "coalesce"
+			at = rng.Intn(nmsg - 1)
+		}
 		ops := ""
 		if at >= 0 {
 			ops = fmt.Sprintf("%d:%s:%d", at, kind, posn)
@@ -470,7 +500,7 @@ func genC16(rng *hx.Rng, tier string, w *hx.Writer) error {
 		for i := 0; i < nmsg; i++ {
 			t := i % ntypes
 			switch {
-			case i != at || kind == "none" || kind == "chunk":
+			case i != at || kind == "none" || kind == "chunk" || kind == "coalesce":
 				frames = append(frames, honestFrame(t, i))
 			case kind == "inject":
 				frames = append(frames, hx.L(hx.Zi(0)), honestFrame(t, i))
@@ -484,7 +514,7 @@ func genC16(rng *hx.Rng, tier string, w *hx.Writer) error {
 		}
 		for i := 0; i < nmsg; i++ {
 			t := i % ntypes
-			if i == at && kind != "none" && kind != "replay" && kind != "chunk" {
+			if i == at && kind != "none" && kind != "replay" && kind != "chunk" && kind != "coalesce" {
 				if kind == "dup-altered" || kind == "cut-replay" {
 					expect = append(expect, deliver(t, i))
 				}
@@ -535,7 +565,7 @@ func genC16(rng *hx.Rng, tier string, w *hx.Writer) error {
 						ok = false
 					}
 				}
-				if (kindC == "none" || kindC == "chunk") && len(ds) != nm {
+				if (kindC == "none" || kindC == "chunk" || kindC == "coalesce") && len(ds) != nm {
 					ok = false
 				}
 				return hx.L(impl...), ok
